@@ -21,8 +21,10 @@ class MixinB:
 
 
 def build(d, *, schema_kw=None, ops_kw=None, doc_kw=None, config=None, calls_per_op=2,
-          mixins=False, omit_p=0.5, config_desc_fn=None):
+          mixins=False, omit_p=0.5, config_desc_fn=None, desc_hook=None):
     desc = gen_schema(d, **(schema_kw or {}))
+    if desc_hook is not None:
+        desc_hook(d, desc)
     sdl = render_sdl(desc)
     try:
         schema = build_schema(sdl)
@@ -132,6 +134,20 @@ class Money:
 def parse_money(value):
     CALLS.append(("parse", value))
     return Money(value)
+
+
+# string-valued variant (C07): every combination of type / parse / serialize stays usable
+MoneyStr = str
+
+
+def parse_moneystr(value):
+    CALLS.append(("parse", value))
+    return "P:" + value if isinstance(value, str) else value
+
+
+def serialize_moneystr(value):
+    CALLS.append(("serialize", value))
+    return "S:" + value if isinstance(value, str) else value
 
 
 def serialize_money(value):
